@@ -825,6 +825,11 @@ func %[1]sArrayToPQ(ids []%[1]s) pq.Int64Array {
 		}
 		if rapid.IntRange(0, 3).Draw(t, "colTag") == 0 {
 			f.Tag = fmt.Sprintf(`json:"%s"`, snake(name))
+			if rapid.IntRange(0, 2).Draw(t, "colTagOtherSpelling") == 0 {
+				// a JSON name that is not the column name, even up to case: SQL names come from the Go field
+				f.Tag = fmt.Sprintf(`json:"j_%s"`, snake(name))
+				o.class("sql:column_json_name_differs_from_field_name")
+			}
 		}
 		d.Fields = append(d.Fields, f)
 		if strings.HasPrefix(kind, "json") {
